@@ -372,6 +372,9 @@ func (g *Gen) transId(name string, env *TEnv) tvT {
 func (g *Gen) ghostComp(gv *GhostVar) (string, types.Type, string) {
 	gt, so := g.resolveType(gv.Type, gv.Pkg)
 	name := "GH_" + gv.Name
+	if gv.State {
+		name = "GS_" + gv.Name
+	}
 	g.comp(name, so)
 	return name, gt, so
 }
@@ -482,6 +485,15 @@ func (g *Gen) transSel(e *Expr, env *TEnv) tvT {
 				// a stored integer field holds a value of its type (the same fact the code gets at a load)
 				if ti := g.typeInv(v.t, ft, false); ti != "true" {
 					g.assumeAlways(ti)
+				}
+			} else if !strings.Contains(v.t, "q_") && g.pristine[env.heap(c)] {
+				// a reference read from a heap version that predates the function denotes an object that
+				// existed at entry (the same fact the code gets at a load)
+				switch ft.Underlying().(type) {
+				case *types.Pointer, *types.Map, *types.Interface:
+					if ti := g.typeInv(v.t, ft, true); ti != "true" {
+						g.assumeAlways(ti)
+					}
 				}
 			}
 			return v
@@ -920,6 +932,19 @@ func (g *Gen) transCall(e *Expr, env *TEnv) tvT {
 		}
 		gt, _ := g.resolveType(tx, env.pkg)
 		return tvT{t: g.typeTag(gt), sort: "Int"}
+	case "unbox":
+		// unbox(x, T): the value of dynamic type T stored in interface value x (meaningful when typeof(x) == typetag(T))
+		tx, err := parseTypeStr(args[1].String())
+		if err != nil {
+			g.fail("unbox: %v", err)
+		}
+		gt, _ := g.resolveType(tx, env.pkg)
+		if gt == nil {
+			g.fail("unbox: unknown type %s", args[1].String())
+		}
+		x := g.trans(args[0], env)
+		g.needIface()
+		return tvT{t: fmt.Sprintf("(%s %s)", g.ipayload(gt), x.t), gt: gt}
 	}
 	if ct, ok := castTypes[name]; ok && len(args) == 1 {
 		x := g.trans(args[0], env)
